@@ -1,6 +1,7 @@
 use crate::core::Check;
 
 pub mod c01;
+pub mod codec_util;
 pub mod c02;
 pub mod c03;
 pub mod c04;
